@@ -284,18 +284,21 @@ fn main() {
     let report = Report::new("C07", "model_checking", &args);
     // passes: (templates, depth, timestamp classes, depth up to which triples are merged, versions, base rooms)
     let all: Vec<usize> = (0..14).collect();
-    let all17: Vec<usize> = (0..TEMPLATES.len()).collect();
+    let all17: Vec<usize> = (0..17).collect();
     type Pass = (Vec<usize>, usize, Vec<u8>, usize, Vec<u8>, Vec<char>);
     let passes: Vec<Pass> = match args.tier {
         Tier::Quick => vec![
             (all.clone(), 3, vec![0, 1, 2], 2, vec![11], vec!['A', 'B']),
             // start from a non-initial state: room C already contains an abandoned, merged power-levels fork
             (all17.clone(), 2, vec![0, 1, 2], 2, vec![11], vec!['C']),
+            // creator vs sender of the create event (legal before v11)
+            (vec![14, 7, 17, 9], 3, vec![1, 2], 3, vec![10], vec!['E', 'D']),
         ],
         // cheapest first, so that the wall cap (if it is ever hit) cuts only the last, largest pass
         Tier::Thorough => vec![
             (all.clone(), 3, vec![0, 1, 2], 3, vec![11, 6, 2], vec!['A', 'B']),
             (all17.clone(), 3, vec![0, 1, 2], 3, vec![11, 6], vec!['C']),
+            (vec![14, 7, 17, 9, 3, 4], 3, vec![0, 1, 2], 3, vec![10, 6], vec!['E', 'D']),
             (vec![14, 15, 16, 9, 13, 11], 5, vec![2], 2, vec![11], vec!['A']),
             (vec![0, 1, 2, 3, 4, 6, 7, 9, 10, 13], 4, vec![1, 2], 2, vec![11], vec!['A', 'B']),
         ],
